@@ -20,7 +20,8 @@ PROP = 'C09'
 RULE = ('cells = (order 1|2, biort family incl. band-pass, q-shift, magbias in {1e-6, 1e-2, 1}, colour on/off, '
         'HxW in 4..24 incl. odd / non-multiple-of-8, input class incl. exact zeros and single impulse, cotangent '
         'class in {randn, ones, one-hot band}); plus SmoothMagFn cells over all requires-grad subsets; distinct '
-        'by (cell, check)')
+        'by (cell, check)'
+        '; second pull-back through one graph, output edited in place before backward, input edited in place between forward and backward (autograd refusing is out of scope)')
 ASSUMPTIONS = ['float64', 'torch native autograd trusted for plain torch code', 'finite differences: h = 1e-4*min(scale, bias)']
 TIMEOUT = {'quick': 900, 'thorough': 3300}
 WORKER_BUDGET = {'quick': 600, 'thorough': 2700}
